@@ -14,16 +14,16 @@ LEVEL = "exploration"
 RULE = (
     "Hypothesis pairs constructed 0-25% below the ACTIVE minimum (both polarities, dark/mid/light backgrounds) x large x "
     "very_readable, hex/rgb()/hsl()/tuple spellings. For each pair the harness scans the text's own OKLCH lightness line "
-    "(own chroma and hue, per-channel clipping to sRGB) outward from the text on a 0.0005 grid until 40 consecutive grid "
-    "points are further than dE00 1.5, with its own OKLab/CIEDE2000/WCAG code; a pair is WITNESSED if a candidate within "
+    "(own chroma and hue, per-channel clipping to sRGB) outward from the text on a 0.0001 grid (0.00002 in the thorough tier) until 40 consecutive distinct "
+    "candidates are further than dE00 1.5, with its own OKLab/CIEDE2000/WCAG code; a pair is WITNESSED if a candidate within "
     "dE 1.5 reaches minimum + 0.05. Only witnessed pairs are judged: success in modes 0, 1 and 2 and dE(original, "
     "returned) <= 2.0. Non-trivial = witnessed pairs; distinct by (text, bg, large, very)."
 )
 ASSUMPTIONS = [
     "O-OKLAB / O-DE00 / O-WCAG oracles; +0.01 dE slack",
-    "0.0005 lightness grid: a witness existing only between grid points is missed (missed obligation, never a false alarm)",
+    "lightness grid 0.0001 (quick) / 0.00002 (thorough): a witness existing only between grid points is missed (missed obligation, never a false alarm)",
 ]
-GRID = 0.0005
+GRID = 0.0001
 
 
 def selftest():
@@ -110,5 +110,7 @@ def strategy(draw):
 
 
 def subchecks(tier):
+    global GRID
     q = tier == "quick"
+    GRID = 0.0001 if q else 0.00002  # shards are forked after this call
     return [Hyp("witnessed-lightness-fix", strategy, judge, examples=16000 if q else 300000)]
